@@ -23,3 +23,5 @@ open HmcVerif.C13
 #print axioms logspace_change_of_variables_abs
 #print axioms HmcVerif.BoxTree.inside1_meet
 #print axioms HmcVerif.BoxTree.ebox_support
+#print axioms mixture_of_copies
+#print axioms mixture_symmetric_pair
